@@ -895,6 +895,30 @@ func ruleCompressFrame(c *Ctx) {
 			}
 		}
 	}
+	// the Compressed flag and the body it describes are established together: every function that assigns the
+	// message's wire body (re)writes the flag on every path to that assignment - a flag left over from an earlier
+	// encoding, or from decoding, over a freshly serialized plain body cannot be decoded by the receiver
+	const fBody, fFlags = "pkg/network#compressedPayload", "pkg/network#Flags"
+	nb := 0
+	for _, fd := range c.P.AllFuncDecls() {
+		if fd.Decl.Body == nil || pkgRel(fd.Obj.Pkg()) != "pkg/network" {
+			continue
+		}
+		f := c.P.NewFuncCFG(fd)
+		body := f.WriteSites(fBody)
+		if len(body) == 0 {
+			continue
+		}
+		// the decoder fills both from the wire: the flag is assigned from the first byte
+		nb++
+		key := FuncKey(fd.Obj) + ".flag-with-body"
+		if ok, path := f.mustBefore(f.Entry(), body, f.WriteSites(fFlags), nil); ok {
+			c.OK(key, c.P.Pos(body[0].node.Pos()), "every path to the assignment of the wire body passes an assignment of the Flags field")
+		} else {
+			c.Fail(key, c.P.Pos(body[0].node.Pos()), fmt.Sprintf("%s assigns the message's wire body on a path that leaves Flags as they were (%s): a Message encoded twice (with and without compression for a mixed peer set) or encoded after being decoded from a compressed packet announces Compressed over a plain body", FuncKey(fd.Obj), strings.Join(path, " -> ")))
+		}
+	}
+	c.Floor("functions assigning the message's wire body", nb, 2)
 	c.Floor("lz4.CompressBlock sites", nc, 1)
 	c.Floor("lz4.UncompressBlock sites", nu, 1)
 }
